@@ -37,11 +37,11 @@ CONSTANTS
     Apis,         \* subset of {"p", "t"}: panicking / try_ entry points
     DrainF, DrainB  \* bounds on the number of next() / next_back() calls on a drain
 
-VARIABLES str, cap, kind, nops, done, hist
+VARIABLES str, cap, kind, nops, done, fin, hist
 
-vars == <<str, cap, kind, nops, done, hist>>
+vars == <<str, cap, kind, nops, done, fin, hist>>
 \* nops is not part of the view: every (string, capacity, kind) is expanded once, at the depth it is first reached
-view == <<str, cap, kind, done>>
+view == <<str, cap, kind, done, fin>>
 
 CharSet == Alphabet \cup {REPL}
 St      == [chars |-> str, cap |-> cap]
@@ -115,6 +115,7 @@ Commit(pre, o, r) ==
     /\ cap'  = r.cap
     /\ nops' = nops + 1
     /\ done' = (Terminal(o, r) \/ nops + 1 >= MaxOps)
+    /\ fin'  = FALSE
     /\ hist' = Append(hist, [op |-> o, pre |-> pre, exp |-> r])
 
 \* constructor step
@@ -267,8 +268,13 @@ AllocCstrFmt  == Live("alloc_cstr_fmt") /\ \E a \in Apis, f \in Fmts :
 AllocCstrFmtMut == Live("alloc_cstr_fmt_mut") /\ \E a \in Apis, f \in Fmts :
                      Do([name |-> "alloc_cstr_fmt_mut", api |-> a, lit |-> f.lit, ps |-> f.ps], "ok")
 
+\* a complete behaviour takes one last step that changes nothing: the state it leads to is the only one with
+\* fin = TRUE for this history, so MC_Str!Emit prints every behaviour exactly once -- also in simulation mode, where
+\* TLC evaluates invariants on all candidate successors of the step it is about to take
+Finish == done /\ ~fin /\ fin' = TRUE /\ UNCHANGED <<str, cap, kind, nops, done, hist>>
+
 Init ==
-    /\ str = <<>> /\ cap = INF /\ kind = "grow" /\ nops = 0 /\ done = FALSE /\ hist = <<>>
+    /\ str = <<>> /\ cap = INF /\ kind = "grow" /\ nops = 0 /\ done = FALSE /\ fin = FALSE /\ hist = <<>>
 
 Next ==
     \/ CtorFromStrA \/ CtorFmtA \/ CtorFromUtf8A \/ CtorFromUtf8LossyA \/ CtorFromUtf16A \/ CtorFromUtf16LossyA
@@ -280,6 +286,7 @@ Next ==
     \/ SplitOffOk \/ SplitOffPanic \/ WriteFmtOk \/ WriteFmtFull
     \/ ExtendZeroedOk \/ ExtendZeroedFull \/ ReserveOk \/ ReserveFull
     \/ IntoCstr \/ AllocCstr \/ AllocCstrFromStr \/ AllocCstrFmt \/ AllocCstrFmtMut
+    \/ Finish
 
 Spec == Init /\ [][Next]_vars
 
